@@ -81,14 +81,14 @@ def compare(R, where, got, x, dtype, case):
     tau, p, slope, trend = (float(got[0]), float(got[1]), float(got[2]), int(got[3]))
     et, ep, es, ef, amb, z = oracle(x)
     R.count("series_compared")
-    if abs(tau - et) > 2 * ulp32(et) + 1e-45:
+    if not (abs(tau - et) <= 2 * ulp32(et) + 1e-45):  # NaN-safe
         R.violation("C10:tau", f"{where}: tau {tau!r} != S/(n(n-1)/2) = {et!r}", case)
         return False
-    if abs(p - ep) > 2 * ulp32(ep) + 5e-16:  # 2(1 - Phi(|z|)) evaluated in float64 has ~2e-16 absolute error
+    if not (abs(p - ep) <= 2 * ulp32(ep) + 5e-16):  # 2(1 - Phi(|z|)) evaluated in float64 has ~2e-16 absolute error
         R.violation("C10:pvalue", f"{where}: p {p!r} != two-sided normal p of the continuity- and tie-corrected Z = {ep!r} (Z={z:.6f})", case)
         return False
     tol = 2 * ulp32(es) + (4 * 2.0 ** -23 * float(np.max(np.abs(np.asarray(x, dtype=float)))) if dtype == "float32" else 0.0) + 1e-45
-    if abs(slope - es) > tol:
+    if not (abs(slope - es) <= tol):
         R.violation("C10:slope", f"{where}: Sen slope {slope!r} != median of pairwise slopes {es!r}", case)
         return False
     if trend != ef and not amb:
@@ -190,7 +190,7 @@ def shard_random(spec, R):
             a, b = int(2 ** int(rng.integers(0, 4))), 0  # exactly representable in float32: the map must not round the data
         t2, p2, s2, f2 = run(x.astype(np.float64) * a + b)
         R.count("pairs_affine")
-        if (t2, p2) != (tau, p) or (f2 != trend and not amb) or abs(s2 - a * slope) > 4 * ulp32(a * slope) + (8 * 2.0 ** -23 * float(np.max(np.abs(x.astype(float)))) * a if dtype == "float32" else 0):
+        if (t2, p2) != (tau, p) or (f2 != trend and not amb) or not (abs(s2 - a * slope) <= 4 * ulp32(a * slope) + (8 * 2.0 ** -23 * float(np.max(np.abs(x.astype(float)))) * a if dtype == "float32" else 0)):
             R.violation("C10:affine", f"positive affine map a={a}, b={b}: (tau,p,slope,flag) {(tau, p, slope, trend)} -> {(t2, p2, s2, f2)}", case)
             continue
         # monotone non-linear map on ranks: keeps tau, p, flag
@@ -208,7 +208,7 @@ def shard_random(spec, R):
         t5, p5, s5, f5 = run(x[::-1].astype(np.float64))
         R.count("pairs_negation_reversal", 2)
         for name, (tt, pp, ss, ff) in (("negation", (t4, p4, s4, f4)), ("time reversal", (t5, p5, s5, f5))):
-            if tt != -tau or pp != p or (ff != -trend and not amb) or abs(ss + slope) > 4 * ulp32(slope) + (8 * 2.0 ** -23 * float(np.max(np.abs(x.astype(float)))) if dtype == "float32" else 0):
+            if tt != -tau or pp != p or (ff != -trend and not amb) or not (abs(ss + slope) <= 4 * ulp32(slope) + (8 * 2.0 ** -23 * float(np.max(np.abs(x.astype(float)))) if dtype == "float32" else 0)):
                 R.violation("C10:antisymmetry", f"{name}: (tau,p,slope,flag) {(tau, p, slope, trend)} -> {(tt, pp, ss, ff)} (expected sign flip of tau, slope, flag; same p)", case)
                 break
         if R.want_sample() and n <= 10:
